@@ -1772,36 +1772,6 @@ def r7(cx):
     cx.floor(n, 8, 'FromStr implementations that drive a Parser')
 
 
-@RS.rule('C06.R8', 'K-PASS', '`$((` that is not an arithmetic expansion is a command substitution starting with a subshell, whatever follows its '
-         'first `)`: after that `)` has been consumed, "unclosed arithmetic expansion" is reported only after the command substitution '
-         'has been tried - also when the input ends there (printed text never ends with a newline)')
-def r8(cx):
-    F = cx.F
-    fn = "yash_syntax::parser::lex::arith::<impl yash_syntax::parser::lex::core::Lexer<'_>>::arithmetic_expansion"
-    body = F.main_body(fn)
-    cx.fn(body.fn)
-    consumes = [(blk, t) for blk, t in Q.find_calls(body, [re.compile(r"lex::core::Lexer(::<.*>)?::consume_char$")])]
-    cx.require(consumes, 'arithmetic_expansion no longer consumes the closing parentheses with consume_char (anchor moved)')
-    first = min(consumes, key=lambda x: body.blocks[x[0]]['t'].get('line', 0))
-    errs = [(blk, j, st) for blk, j, st in Q.find_aggregates(body, re.compile(r'SyntaxError$'), 'UnclosedArith')]
-    cx.require(errs, 'arithmetic_expansion no longer reports UnclosedArith')
-    subst = {blk for blk, t in Q.find_calls(body, [re.compile(r'::command_substitution$')])}
-    after = body.reachable(first[0])
-    n = 0
-    for blk, j, st in errs:
-        if blk not in after or blk == first[0]:
-            continue
-        n += 1
-        p = body.shortest_path(first[0], {blk}, removed=subst)
-        cx.site('arithmetic_expansion: UnclosedArith at %s after the first `)`: command substitution tried first: %s' % (body.loc(st), p is None))
-        if p is not None:
-            cx.violation(fn, 'unclosed-arith-without-trying-command-substitution', 'after the first `)` of `$((...)` the lexer reports an unclosed '
-                         'arithmetic expansion without trying to read `$( (...) ...)` as a command substitution: `echo $((echo x) )` at the very end '
-                         'of the input (`yash -c`, or any printed command, which has no trailing newline) is a syntax error, the same text followed '
-                         'by a newline is not', loc=body.loc(st), path=Q.render_path(body, p))
-    cx.require(n >= 1, 'no UnclosedArith error after the first `)` found (anchor moved)')
-
-
 def _cond_mentions(F, cond, pred, depth=1):
     """Does the condition (or a workspace helper it calls, one level) contain a node satisfying pred?"""
     for y in H.walk(cond):
@@ -1887,5 +1857,5 @@ RS.rules.sort(key=lambda r: r.id)
 RS.explanation += ' Added later: the raw text of a command substitution is printed verbatim (R2b).'
 RS.explanation += ' (R5) first_word_is_keyword is evaluated path by path under the hypothesis that the keyword-table lookup returned Ok(unknown keyword): every path must return the constant true, so no further condition narrows the set of reserved words that are printed redirections-first; (R3b) also accepts `false` where the lookup result is known to be Err.'
 RS.explanation += ' (R6) after an unquoted backslash the escaped character is read with line continuation disabled, in every unit lexer.'
-RS.explanation += ' (R7) every Parser-driving FromStr rejects trailing text; (R8) `$((..) ` at end of input falls back to a command substitution.'
+RS.explanation += ' (R7) every Parser-driving FromStr rejects trailing text.'
 RS.explanation += ' (R3c) blanks that keep `a$ ()` and `( (` apart are printed.'
